@@ -16,7 +16,9 @@
 (*  clo    [k |-> "clo",   fn |-> function AST, env |-> frame address]     *)
 (*  builtin[k |-> "builtin", name |-> s]                                   *)
 (* Heap objects: [k |-> "frame", vars, parent], [k |-> "list", items],     *)
-(*               [k |-> "blob", fields]                                    *)
+(*               [k |-> "blob", fields], [k |-> "set", items] (no two      *)
+(*               members StructEq), [k |-> "dict", keys, vals] (parallel   *)
+(*               sequences, no two keys StructEq)                          *)
 (***************************************************************************)
 EXTENDS Naturals, Integers, Sequences, FiniteSets, TLC
 
@@ -68,8 +70,12 @@ TwoExp(n) == LET RECURSIVE T(_)
 Err(why) == [k |-> "err", why |-> why]
 IsErr(v) == v.k = "err"
 
+\* a product that would overflow TLC's 32-bit integers is (far) beyond the model limit MaxMag: outside the model
+MulTooBig(x, y) == x # 0 /\ Abs(y) > 2000000000 \div Abs(x)
+
 NumArith(op, a, b) ==
-    IF a.k = "int" /\ b.k = "int" /\ op # "/"
+    IF op = "*" /\ MulTooBig(AsF(a)[1], AsF(b)[1]) THEN Err("drop:magnitude")
+    ELSE IF a.k = "int" /\ b.k = "int" /\ op # "/"
     THEN CASE op = "+" -> IntV(a.v + b.v)
            [] op = "-" -> IntV(a.v - b.v)
            [] op = "*" -> IntV(a.v * b.v)
@@ -113,6 +119,13 @@ StructEq(a, b, heap) ==
                   ELSE IF x.k = "list"
                     THEN /\ Len(x.items) = Len(y.items)
                          /\ \A i \in 1..Len(x.items) : StructEq(x.items[i], y.items[i], heap)
+                    ELSE IF x.k = "set"     \* same members (members are unique within a set)
+                    THEN /\ Len(x.items) = Len(y.items)
+                         /\ \A i \in 1..Len(x.items) : \E j \in 1..Len(y.items) : StructEq(x.items[i], y.items[j], heap)
+                    ELSE IF x.k = "dict"    \* same keys (unique within a dict), equal values
+                    THEN /\ Len(x.keys) = Len(y.keys)
+                         /\ \A i \in 1..Len(x.keys) : \E j \in 1..Len(y.keys) :
+                               StructEq(x.keys[i], y.keys[j], heap) /\ StructEq(x.vals[i], y.vals[j], heap)
                     ELSE /\ DOMAIN x.fields = DOMAIN y.fields
                          /\ \A f \in DOMAIN x.fields : StructEq(x.fields[f], y.fields[f], heap)
            [] a.k = "clo" -> a.env = b.env /\ a.fn = b.fn
@@ -162,8 +175,63 @@ Render(v, heap, depth) ==
            [] v.k = "ref" -> LET o == heap[v.a] IN
                 IF o.k = "list"
                 THEN [k |-> "list", es |-> [i \in 1..Len(o.items) |-> Render(o.items[i], heap, depth - 1)]]
+                ELSE IF o.k = "set"
+                THEN [k |-> "set", es |-> [i \in 1..Len(o.items) |-> Render(o.items[i], heap, depth - 1)]]
+                ELSE IF o.k = "dict"
+                THEN [k |-> "dict", ks |-> [i \in 1..Len(o.keys) |-> Render(o.keys[i], heap, depth - 1)],
+                                    vs |-> [i \in 1..Len(o.vals) |-> Render(o.vals[i], heap, depth - 1)]]
                 ELSE [k |-> "blob"]
            [] v.k = "clo" -> [k |-> "fn"]
            [] v.k = "builtin" -> [k |-> "fn"]
            [] OTHER -> v
+
+(***************************************************************************)
+(* The TEXT `print` / `as_str` show for a snapshot (DESIGN 7.1): ints in   *)
+(* decimal, floats as Lua 5.3 writes them ("%.14g", ".0" appended to whole *)
+(* numbers), strings bare, (a, b) / (a,) / (), [a, b], `Tag payload`,      *)
+(* `dict {k: v}`, `set {x}`.  Some snapshots have no text the language     *)
+(* fixes (blobs: field order; functions: an address; containers without    *)
+(* order holding two or more entries; floats needing more than 14          *)
+(* significant digits; values nested deeper than Render looks):            *)
+(* Printable is FALSE for them and whoever asks drops the case.            *)
+(***************************************************************************)
+NumDigits(n) == LET RECURSIVE D(_)
+                    D(m) == IF m < 10 THEN 1 ELSE 1 + D(m \div 10)
+                IN D(n)
+
+FloatPrintable(n, d) == LET ip == Abs(n) \div Pow2(d) IN ip = 0 \/ NumDigits(ip) + d <= 14
+
+FloatText(n, d) ==
+    LET p == Pow2(d)
+        a == Abs(n)
+        RECURSIVE Frac(_)
+        Frac(r) == IF r = 0 THEN "" ELSE ToString((r * 10) \div p) \o Frac((r * 10) % p)
+    IN (IF n < 0 THEN "-" ELSE "") \o ToString(a \div p) \o "." \o (IF a % p = 0 THEN "0" ELSE Frac(a % p))
+
+RECURSIVE Printable(_)
+Printable(r) ==
+    CASE r.k \in {"int", "str", "bool", "nil"} -> TRUE
+      [] r.k = "float" -> FloatPrintable(r.n, r.d)
+      [] r.k \in {"tuple", "list"} -> \A i \in 1..Len(r.es) : Printable(r.es[i])
+      [] r.k = "variant" -> Printable(r.val)
+      [] r.k = "set" -> Len(r.es) <= 1 /\ \A i \in 1..Len(r.es) : Printable(r.es[i])
+      [] r.k = "dict" -> Len(r.ks) <= 1 /\ \A i \in 1..Len(r.ks) : Printable(r.ks[i]) /\ Printable(r.vs[i])
+      [] OTHER -> FALSE        \* blob, fn, deep
+
+RECURSIVE SnapText(_)
+SnapText(r) ==
+    LET RECURSIVE Join(_, _)
+        Join(es, i) == IF i > Len(es) THEN ""
+                       ELSE (IF i > 1 THEN ", " ELSE "") \o SnapText(es[i]) \o Join(es, i + 1)
+    IN CASE r.k = "int" -> ToString(r.v)
+         [] r.k = "float" -> FloatText(r.n, r.d)
+         [] r.k = "str" -> r.v
+         [] r.k = "bool" -> (IF r.v THEN "true" ELSE "false")
+         [] r.k = "nil" -> "nil"
+         [] r.k = "tuple" -> IF Len(r.es) = 1 THEN "(" \o SnapText(r.es[1]) \o ",)" ELSE "(" \o Join(r.es, 1) \o ")"
+         [] r.k = "list" -> "[" \o Join(r.es, 1) \o "]"
+         [] r.k = "variant" -> r.tag \o " " \o SnapText(r.val)
+         [] r.k = "set" -> "set {" \o Join(r.es, 1) \o "}"
+         [] r.k = "dict" -> "dict {" \o (IF Len(r.ks) = 0 THEN "" ELSE SnapText(r.ks[1]) \o ": " \o SnapText(r.vs[1])) \o "}"
+         [] OTHER -> "<unprintable:" \o r.k \o ">"
 =============================================================================
